@@ -140,6 +140,25 @@ Theorem C12_model_copy_points_to :
 Proof. exact model_copy_points_to. Qed.
 Print Assumptions C12_model_copy_points_to.
 
+(* the names quoted in the replay files of the check (harness/c12.py, THEOREMS) *)
+Theorem C12_points_to_copy :
+  forall T h m h' m' ok,
+    table_safe T = true -> table_shape T = true -> wf_model_content T h m = true ->
+    (exists mc s, get h m = Some mc /\ attr mc "_solver" = Some (Ref s)) ->
+    model_copy T h m = (h', m', ok) -> points_to_copy_b (List.length h) h' m' = true.
+Proof. exact model_copy_points_to. Qed.
+Print Assumptions C12_points_to_copy.
+
+Theorem C12_detached :
+  (forall T h x h' x' ok, species_copy T h x = (h', x', ok) ->
+      Ext (List.length h) h h' /\ (ok = true -> List.length h <= x')) /\
+  (forall T h r h' r', heap_wf h -> reaction_copy T h r = (h', r', true) ->
+      List.length h <= r' /\ (forall x, Reach h' r' x -> List.length h <= x)).
+Proof.
+  split; [exact species_copy_fresh|]. intros T h r h' r' Hwf H. destruct (reaction_copy_fresh T h r h' r' Hwf H) as [H1 [_ H3]]. auto.
+Qed.
+Print Assumptions C12_detached.
+
 (* set order and attribute order are not content: sort_items is invariant under permutation (distinct keys) *)
 Theorem C12_sort_items_permutation :
   forall l1 l2, Permutation.Permutation l1 l2 -> List.NoDup (List.map ikey l1) -> sort_items l1 = sort_items l2.
